@@ -67,6 +67,10 @@ type lexer struct {
 	// Lenient only: read backslash-quote inside literals as an escape (second
 	// attempt when the XPath reading of the literals does not parse)
 	litEscapes bool
+	// Lenient only: do not read keyword look-alikes as the keyword (the
+	// generated lexer does so for some characters at the hyphen positions
+	// and not for others; both readings are tried)
+	plainLookalikes bool
 }
 
 func isXMLSpace(r rune) bool { return r == ' ' || r == '\t' || r == '\r' || r == '\n' }
@@ -387,7 +391,7 @@ func (l *lexer) scan() (token, error) {
 				return token{}, fmt.Errorf("known finding: name that looks like the keyword %s", k)
 			}
 			l.Features["keyword-lookalike"] = true
-			if a, b := l.peekAfterSpace(l.i); a == '(' || a == ':' && b == ':' {
+			if a, b := l.peekAfterSpace(l.i); (a == '(' || a == ':' && b == ':') && !l.plainLookalikes {
 				name = k // read as the keyword, as the generated lexer does
 			}
 		}
@@ -490,24 +494,30 @@ type parser struct {
 // Parse parses text; err == nil means the string is an expression in the
 // given mode.  Features lists the lenient features that were used.
 func Parse(text string, mode Mode) (e *xast.Expr, features map[string]bool, err error) {
-	e, features, err = parseLit(text, mode, false)
-	if err != nil && mode == Lenient && strings.Contains(text, "\\") {
-		if e2, f2, err2 := parseLit(text, mode, true); err2 == nil {
+	e, features, err = parseLit(text, mode, false, false)
+	if err == nil || mode == Strict {
+		return e, features, err
+	}
+	for _, v := range [][2]bool{{false, true}, {true, false}, {true, true}} {
+		if v[0] && !strings.Contains(text, "\\") {
+			continue
+		}
+		if e2, f2, err2 := parseLit(text, mode, v[0], v[1]); err2 == nil {
 			return e2, f2, nil
 		}
 	}
 	return e, features, err
 }
 
-func parseLit(text string, mode Mode, litEscapes bool) (e *xast.Expr, features map[string]bool, err error) {
-	e, features, nAmbig, err := parseWith(text, mode, 0, litEscapes)
+func parseLit(text string, mode Mode, litEscapes, plainLookalikes bool) (e *xast.Expr, features map[string]bool, err error) {
+	e, features, nAmbig, err := parseWith(text, mode, 0, litEscapes, plainLookalikes)
 	if err == nil || mode == Strict || nAmbig == 0 {
 		return e, features, err
 	}
 	// an attempt that fails early sees only some of the ambiguous points;
 	// later attempts may reveal more
 	for c := uint(1); c < 1<<uint(nAmbig) && c < 1<<10; c++ {
-		e2, f2, n2, err2 := parseWith(text, mode, c, litEscapes)
+		e2, f2, n2, err2 := parseWith(text, mode, c, litEscapes, plainLookalikes)
 		if err2 == nil {
 			return e2, f2, nil
 		}
@@ -518,8 +528,8 @@ func parseLit(text string, mode Mode, litEscapes bool) (e *xast.Expr, features m
 	return nil, features, err
 }
 
-func parseWith(text string, mode Mode, choices uint, litEscapes bool) (e *xast.Expr, features map[string]bool, nAmbig int, err error) {
-	lx := &lexer{rs: []rune(text), mode: mode, Features: map[string]bool{}, choices: choices, litEscapes: litEscapes}
+func parseWith(text string, mode Mode, choices uint, litEscapes, plainLookalikes bool) (e *xast.Expr, features map[string]bool, nAmbig int, err error) {
+	lx := &lexer{rs: []rune(text), mode: mode, Features: map[string]bool{}, choices: choices, litEscapes: litEscapes, plainLookalikes: plainLookalikes}
 	p := &parser{lx: lx, mode: mode}
 	defer func() {
 		nAmbig = lx.nAmbig
